@@ -105,7 +105,7 @@ func c03If(c *Ctx, pp, tag string) {
 	allInstrs(f, func(in ssa.Instruction) {
 		if call, ok := in.(*ssa.Call); ok && call != branchBody && evals[call.Call.StaticCallee()] {
 			if reachableFrom(branchBody, call) {
-				after = append(after, fmt.Sprintf("%s(%s) at %s", call.Call.StaticCallee().Name(), path(call.Call.Args[1]), t.Pos(call.Pos())))
+				after = append(after, fmt.Sprintf("%s(%s) at %s", fnName(call.Call.StaticCallee()), path(call.Call.Args[1]), t.Pos(call.Pos())))
 			}
 		}
 	})
@@ -140,7 +140,7 @@ func c03If(c *Ctx, pp, tag string) {
 					return
 				}
 				if in == first || reachableFrom(first, call) {
-					reach = append(reach, fmt.Sprintf("%s at %s", call.Call.StaticCallee().Name(), t.Pos(call.Pos())))
+					reach = append(reach, fmt.Sprintf("%s at %s", fnName(call.Call.StaticCallee()), t.Pos(call.Pos())))
 				}
 			})
 		}
@@ -278,7 +278,7 @@ func scopeDepth(f *ssa.Function) (map[ssa.Instruction]uint16, func(int) (int, in
 		delta, def := dec(st)
 		name := func(cc *ssa.CallCommon) string {
 			if cc.StaticCallee() != nil {
-				return cc.StaticCallee().Name()
+				return fnName(cc.StaticCallee())
 			}
 			return ""
 		}
@@ -339,7 +339,7 @@ func c03Scopes(c *Ctx, pp, tag string) {
 		// bodies run at depth >= 1 and, for loops/branches, exactly entry+2 or +1 consistently (single value)
 		allInstrs(f, func(in ssa.Instruction) {
 			call, ok := in.(*ssa.Call)
-			if !ok || call.Call.StaticCallee() == nil || !bodyCallee[call.Call.StaticCallee().Name()] {
+			if !ok || call.Call.StaticCallee() == nil || !bodyCallee[fnName(call.Call.StaticCallee())] {
 				return
 			}
 			depths := map[int]bool{}
@@ -1082,28 +1082,40 @@ func c03Vars(c *Ctx) {
 	}
 	r.Fn(relName(set), relName(get), relName(gk))
 	// Set: insertion targets the receiver's Data; update in place targets the found Varb
-	insRecv, upd := false, false
-	allInstrs(set, func(in ssa.Instruction) {
-		switch x := in.(type) {
-		case *ssa.MapUpdate:
-			if path(x.Map) == pname(set.Params[0])+".Data" {
-				insRecv = true
-			} else {
-				insRecv = false
-			}
-		case *ssa.Store:
-			if fa, ok := x.Addr.(*ssa.FieldAddr); ok && namedOf(fa.X.Type()) == "runtime.Varb" && fieldName(fa) == "Value" {
-				if _, isAlloc := fa.X.(*ssa.Alloc); !isAlloc {
-					// stored into the looked-up variable, under its ok
-					for _, ec := range controlling(x.Block()) {
-						if strings.HasPrefix(ec.String(), "phi:") || strings.Contains(ec.String(), "#1") {
-							upd = true
+	insRecv, upd, helperInsert := false, false, false
+	var setFns []*ssa.Function
+	for g := range setScope(set) {
+		setFns = append(setFns, g)
+	}
+	sortFuncs(setFns)
+	for _, sf := range setFns {
+		allInstrs(sf, func(in ssa.Instruction) {
+			switch x := in.(type) {
+			case *ssa.MapUpdate:
+				if sf != set {
+					helperInsert = true // creation belongs to Set itself, in the receiver's frame
+					return
+				}
+				if path(x.Map) == pname(set.Params[0])+".Data" {
+					insRecv = true
+				} else {
+					insRecv = false
+				}
+			case *ssa.Store:
+				if fa, ok := x.Addr.(*ssa.FieldAddr); ok && namedOf(fa.X.Type()) == "runtime.Varb" && fieldName(fa) == "Value" {
+					if _, isAlloc := fa.X.(*ssa.Alloc); !isAlloc {
+						// stored into the looked-up variable, under its ok
+						for _, ec := range controlling(x.Block()) {
+							if strings.HasPrefix(ec.String(), "phi:") || strings.Contains(ec.String(), "#1") {
+								upd = true
+							}
 						}
 					}
 				}
 			}
-		}
-	})
+		})
+	}
+	insRecv = insRecv && !helperInsert
 	// every successful assignment stores: no success return of the identifier / index arms is reachable from the
 	// function entry without passing SetVarb / changeListOrMapValue
 	for _, pp := range []string{pRT, pRT2} {
@@ -1119,7 +1131,7 @@ func c03Vars(c *Ctx) {
 			if !ok || call.Call.StaticCallee() == nil {
 				return false
 			}
-			n := call.Call.StaticCallee().Name()
+			n := fnName(call.Call.StaticCallee())
 			return n == "SetVarb" || n == "changeListOrMapValue"
 		}
 		// a helper is as good as a store when none of its success returns can be reached without one
@@ -1208,7 +1220,7 @@ func c03Vars(c *Ctx) {
 						names := map[string]bool{}
 						allInstrs(h, func(i2 ssa.Instruction) {
 							if c2, ok := i2.(*ssa.Call); ok && c2.Call.StaticCallee() != nil && directStore(i2) {
-								names[c2.Call.StaticCallee().Name()] = true
+								names[fnName(c2.Call.StaticCallee())] = true
 							}
 						})
 						if len(names) < 2 || h.Name() == "changeListOrMapValue" {
@@ -1278,7 +1290,10 @@ func c03Vars(c *Ctx) {
 					return
 				}
 				nVW++
-				if _, isAlloc := fa.X.(*ssa.Alloc); isAlloc || f == set {
+				if _, inSet := setScope(set)[f]; inSet {
+					return
+				}
+				if _, isAlloc := fa.X.(*ssa.Alloc); isAlloc {
 					return
 				}
 				foreign = append(foreign, fmt.Sprintf("%s stores %s.%s at %s", relName(f), path(fa.X), fieldName(fa), t.Pos(st.Pos())))
@@ -1296,8 +1311,8 @@ func c03Vars(c *Ctx) {
 		cands := []*ssa.Function{f}
 		allInstrs(f, func(in ssa.Instruction) {
 			if call, ok := in.(*ssa.Call); ok {
-				if g := call.Call.StaticCallee(); g != nil && g.Pkg == f.Pkg && g != f && len(g.Blocks) > 0 && g.Signature.Recv() != nil && len(call.Call.Args) > 0 && call.Call.Args[0] == ssa.Value(f.Params[0]) {
-					cands = append(cands, g) // a search helper on the same receiver
+				if g := call.Call.StaticCallee(); g != nil && pkgOf(g) == f.Pkg && g != f && len(g.Blocks) > 0 && len(call.Call.Args) > 0 && call.Call.Args[0] == ssa.Value(f.Params[0]) {
+					cands = append(cands, g) // a search helper (method, function or generic instance) given the same frame
 				}
 			}
 		})
@@ -1311,6 +1326,13 @@ func c03Vars(c *Ctx) {
 					}
 				}
 			}
+			// the recursive form: the search calls itself on the enclosing frame
+			allInstrs(g, func(in ssa.Instruction) {
+				if call, ok := in.(*ssa.Call); ok && call.Call.StaticCallee() == g && len(call.Call.Args) > 0 && len(g.Params) > 0 &&
+					path(call.Call.Args[0]) == pname(g.Params[0])+".Before" {
+					walks = true
+				}
+			})
 		}
 		r.Ob("VARS", relName(f)+" walks the chain of enclosing scopes", t.Pos(f.Pos()), walks, "cur = cur.Before inside the search loop")
 	}
@@ -1374,7 +1396,7 @@ func c03Vars(c *Ctx) {
 			return
 		}
 		for _, ec := range controlling(ret.Block()) {
-			if bo, ok := ec.Cond.(*ssa.BinOp); ok && isNilConst(bo.Y) && bo.Op == token.NEQ && ec.Pol {
+			if bo, ok := ec.Cond.(*ssa.BinOp); ok && isNilConst(bo.Y) && ((bo.Op == token.NEQ && ec.Pol) || (bo.Op == token.EQL && !ec.Pol)) {
 				if ex, ok := bo.X.(*ssa.Extract); ok {
 					if call, ok := ex.Tuple.(*ssa.Call); ok && call.Call.StaticCallee() == gk {
 						v, isC := constInt(ret.Results[1])
@@ -1772,7 +1794,7 @@ func c03IfSelect(c *Ctx, f *ssa.Function, tag string, runStmts, condTrue *ssa.Fu
 	allInstrs(f, func(in ssa.Instruction) {
 		if call, ok := in.(*ssa.Call); ok && call != body && (evals[call.Call.StaticCallee()] || call.Call.StaticCallee() == h) {
 			if reachableFrom(body, call) {
-				after = append(after, call.Call.StaticCallee().Name())
+				after = append(after, fnName(call.Call.StaticCallee()))
 			}
 		}
 	})
@@ -1843,5 +1865,46 @@ func keysInt(m map[int]bool) []int {
 		out = append(out, k)
 	}
 	sort.Ints(out)
+	return out
+}
+
+// setScope: Stack.Set and the helpers of its package that it hands its frame and its value parameter to (an `update`
+// method that walks the chain, recursive or not): function -> position of the parameter carrying Set's value.
+func setScope(set *ssa.Function) map[*ssa.Function]int {
+	out := map[*ssa.Function]int{}
+	vp := roleParam(set, 2)
+	if vp == nil {
+		return out
+	}
+	for i, p := range set.Params {
+		if p == vp {
+			out[set] = i
+		}
+	}
+	work := []*ssa.Function{set}
+	for len(work) > 0 {
+		f := work[len(work)-1]
+		work = work[:len(work)-1]
+		vi := out[f]
+		allInstrs(f, func(in ssa.Instruction) {
+			call, ok := in.(*ssa.Call)
+			if !ok {
+				return
+			}
+			g := call.Call.StaticCallee()
+			if g == nil || pkgOf(g) != set.Pkg || len(g.Blocks) == 0 {
+				return
+			}
+			if _, seen := out[g]; seen {
+				return
+			}
+			for k, a := range call.Call.Args {
+				if a == ssa.Value(f.Params[vi]) && k < len(g.Params) {
+					out[g] = k
+					work = append(work, g)
+				}
+			}
+		})
+	}
 	return out
 }
